@@ -234,8 +234,13 @@ func passwdEntry(user, home string) (*etcpwdparse.EtcPasswdEntry, error) {
 	return &e, err
 }
 
-func startAppServer(r *Run, n *Net, users []string, enableGrants bool, dataTimeout time.Duration) (*TServer, *hopserver.HopServer, *simFS, *config.ServerConfig) {
+// noKeyStore (optional): the server has no set of authorized keys at all - what hopserver.NewHopServer derives
+// for "skip client verification" together with "authorization grants enabled".
+func startAppServer(r *Run, n *Net, users []string, enableGrants bool, dataTimeout time.Duration, noKeyStore ...bool) (*TServer, *hopserver.HopServer, *simFS, *config.ServerConfig) {
 	ks := AuthKeySet()
+	if len(noKeyStore) > 0 && noKeyStore[0] {
+		ks = nil
+	}
 	cv := &transport.VerifyConfig{InsecureSkipVerify: true}
 	ts := StartServer(r, n, ServerOpts{ClientVerify: cv, HSTimeout: 3 * time.Second})
 	sc := &config.ServerConfig{EnableAuthorizedKeys: true, EnableAuthgrants: enableGrants, DataTimeout: dataTimeout}
@@ -306,7 +311,10 @@ func scLogin(r *Run) {
 	n.Cfg.Latency = time.Duration(1+r.Intn("cfg", 10)) * time.Millisecond
 	enableGrants := r.Intn("cfg", 2) == 0
 	users := []string{"alice", "bob", "carol"}
-	ts, hs, sfs, srvCfg := startAppServer(r, n, users, enableGrants, 0)
+	// a server without a key set cannot take grants: AddAuthGrant refuses, and a refused grant admits nobody
+	noKS := enableGrants && r.Intn("noks", 5) == 0
+	r.SetCfg("key-store", !noKS)
+	ts, hs, sfs, srvCfg := startAppServer(r, n, users, enableGrants, 0, noKS)
 	if r.Intn("cfg", 3) == 0 {
 		sfs.slowP = 0.1 + 0.6*r.Float("cfg")
 	}
@@ -409,13 +417,21 @@ func scLogin(r *Run) {
 		in := &authgrants.Intent{GrantType: authgrants.Shell, StartTime: time.Now(), ExpTime: time.Now().Add(time.Hour),
 			TargetUsername: user, DelegateCert: *SelfSigned(k.Public, certs.RawStringName("delegate"))}
 		// counted at invocation: a login that is confirmed afterwards may have consumed it
-		if enableGrants {
+		if enableGrants && !noKS {
 			gmu.Lock()
 			grants[gkey(user, k.Public)]++
 			gmu.Unlock()
 		}
 		if err := hs.AddAuthGrant(in); err == nil {
 			r.Logf("grant added for %s", user)
+			if noKS {
+				// (accepted after all: then it counts)
+				gmu.Lock()
+				grants[gkey(user, k.Public)]++
+				gmu.Unlock()
+			}
+		} else if noKS {
+			r.CountFault("grant-refused-by-a-server-without-key-store", 1)
 		} else if enableGrants {
 			r.Violate("C05/nofault/add-grant-failed", "AddAuthGrant failed with grants enabled: %v", err)
 		}
